@@ -244,6 +244,11 @@ func (e *Engine) sendPoisonPill(ctx context.Context, graceful bool, pid *PID) co
 		return ctx
 	}
 	e.SendLocal(pid, pill, nil)
+	// The process may have emptied its inbox for the last time between our
+	// lookup and the push; it is unregistered only after it handled Stopped.
+	if e.Registry.get(pid) == nil {
+		cancel()
+	}
 	return ctx
 }
 
